@@ -39,9 +39,11 @@ func caseRegions(fn *ssa.Function, p ssa.Value) map[string]map[*ssa.BasicBlock]b
 		if !ok || !ta.CommaOk || ta.X != p {
 			continue
 		}
+		// the case body is the true successor; several types may share one body (case A, B:)
 		reg := map[*ssa.BasicBlock]bool{}
+		body := b.Succs[0]
 		for _, c := range fn.Blocks {
-			if edgeDominates(b, 0, c) {
+			if body.Dominates(c) {
 				reg[c] = true
 			}
 		}
@@ -203,6 +205,7 @@ func checkC14(w *World, r *Report) {
 	}
 	// gate
 	var typeEqIf, seqAIf, seqBIf *ssa.BasicBlock
+	typeEqEdge := 0 // successor index taken when the dynamic types are equal
 	for _, b := range eq.Blocks {
 		iff := blockIf(b)
 		if iff == nil {
@@ -210,11 +213,14 @@ func checkC14(w *World, r *Report) {
 		}
 		switch x := iff.Cond.(type) {
 		case *ssa.BinOp:
-			if x.Op == token.EQL {
+			if x.Op == token.EQL || x.Op == token.NEQ {
 				cx, ok1 := x.X.(*ssa.Call)
 				cy, ok2 := x.Y.(*ssa.Call)
 				if ok1 && ok2 && cx.Call.StaticCallee() != nil && cx.Call.StaticCallee().Name() == "TypeOf" && cy.Call.StaticCallee() != nil && cy.Call.StaticCallee().Name() == "TypeOf" {
 					typeEqIf = b
+					if x.Op == token.NEQ {
+						typeEqEdge = 1
+					}
 				}
 			}
 		case *ssa.Call:
@@ -255,8 +261,11 @@ func checkC14(w *World, r *Report) {
 					break
 				}
 				for i, s := range b.Succs {
-					if (b == typeEqIf || b == seqIf) && i == 0 {
-						continue
+					if b == typeEqIf && i == typeEqEdge {
+						continue // types differ on the path explored
+					}
+					if b == seqIf && i == 0 {
+						continue // this operand is not sequential on the path explored
 					}
 					stack = append(stack, s)
 				}
@@ -302,7 +311,7 @@ func checkC14(w *World, r *Report) {
 	aud.closure = []*ssa.Function{eq, seqQ}
 	aud.inClos[eq], aud.inClos[seqQ] = true, true
 	aud.run()
-	r.floor("C14.site", "may-panic sites in the equality function", r.count("C14.site"), 8)
+	r.floor("C14.site", "may-panic sites in the equality function", r.count("C14.site"), 4)
 	r.Assumptions = append(r.Assumptions, "reflexivity, symmetry and transitivity as relations follow from these shapes only by an argument about the recursion that is stated in prose (DESIGN.md), not mechanised")
 }
 
@@ -550,7 +559,7 @@ func checkC13(w *World, r *Report) {
 	// pure functions: the builtins never write storage they did not allocate (C02's analysis over lib/core)
 	r.rule("C13.pure", "the collection builtins are pure functions: every container write in lib/core has a base allocated in the current activation (C02's ownership analysis restricted to the builtins)")
 	npure := ruleContainerWrites(w, r, e, "C13.pure", func(fn *ssa.Function) bool { return fnPkgPath(fn) == modPath+"/lib/core" }, false)
-	r.floor("C13.pure", "container write sites in lib/core", npure, 40)
+	r.floor("C13.pure", "container write sites in lib/core", npure, 30)
 	r.Assumptions = append(r.Assumptions, "input/output values of the builtins, result kinds (list vs vector, nil vs empty) and README conformance are not decided; purity is C02's check")
 }
 
@@ -691,7 +700,7 @@ func lispVocab(w *World, r *Report, names map[string]string) {
 		}
 	}
 	r.addRaw("C13.vocab", "-", "free symbols of the embedded headers", "-", "discharged", fmt.Sprintf("%d symbol references in %d files resolved against %d registered names, %d header definitions and the special forms", nsym, len(files), len(names), len(defs)))
-	r.floor("C13.vocab", "symbol references in the embedded headers", nsym, 300)
+	r.floor("C13.vocab", "symbol references in the embedded headers", nsym, 200)
 }
 
 func copyBound(m map[string]bool) map[string]bool {
@@ -759,7 +768,7 @@ func checkC17(w *World, r *Report) {
 			}
 		}
 	}
-	r.floor("C17.provenance", "position fields copied from other positions", np, 20)
+	r.floor("C17.provenance", "position fields copied from other positions", np, 12)
 	// tokenizer
 	tk := w.Fn("reader", "tokenize")
 	if tk == nil {
@@ -795,7 +804,7 @@ func checkC17(w *World, r *Report) {
 				}
 			}
 		}
-		r.floor("C17.provenance", "position fields set by the tokenizer", nt, 10)
+		r.floor("C17.provenance", "position fields set by the tokenizer", nt, 6)
 	}
 	// module header consulted only without a module
 	rs := w.Fn("reader", "Read_str")
@@ -911,28 +920,33 @@ func checkC17(w *World, r *Report) {
 	}
 	if rf := w.Fn("reader", "read_form"); rf != nil {
 		nm, okAll := 0, true
-		for _, b := range rf.Blocks {
-			for _, in := range b.Instrs {
-				al, ok := in.(*ssa.Alloc)
-				if !ok || al.Comment != "complit" {
-					continue
-				}
-				if _, name, ok := w.namedStruct(al.Type()); !ok || name != "List" {
-					continue
-				}
-				nm++
-				has := false
-				for _, ref := range *al.Referrers() {
-					if fa, ok := ref.(*ssa.FieldAddr); ok && fieldName(fa.X.Type(), fa.Field) == "Cursor" {
-						has = true
+		for _, fn := range w.pkgFuncs("reader") {
+			if !strings.HasPrefix(fn.Name(), "read_") {
+				continue
+			}
+			for _, b := range fn.Blocks {
+				for _, in := range b.Instrs {
+					al, ok := in.(*ssa.Alloc)
+					if !ok || al.Comment != "complit" {
+						continue
 					}
-				}
-				if !has {
-					okAll = false
+					if _, name, ok := w.namedStruct(al.Type()); !ok || (name != "List" && name != "Vector") {
+						continue
+					}
+					nm++
+					has := false
+					for _, ref := range *al.Referrers() {
+						if fa, ok := ref.(*ssa.FieldAddr); ok && fieldName(fa.X.Type(), fa.Field) == "Cursor" {
+							has = true
+						}
+					}
+					if !has {
+						okAll = false
+					}
 				}
 			}
 		}
-		r.check(nm >= 6 && okAll, "C17.span", rf, "reader-macro forms", rf.Pos(), fmt.Sprintf("all %d carry a cursor", nm), "a reader-macro form is built without a cursor")
+		r.check(nm >= 3 && okAll, "C17.span", rf, "forms built by the reader", rf.Pos(), fmt.Sprintf("all %d list/vector literals carry a cursor", nm), "the reader builds a form without a cursor")
 	}
 	// carrier
 	if m := newEvalModel(w, e); m.ok {
@@ -1336,7 +1350,7 @@ func checkC20(w *World, r *Report) {
 				for _, d := range callFn.Blocks {
 					if iff := blockIf(d); iff != nil && reg[d] {
 						for i := 0; i < 2; i++ {
-							if edgeDominates(d, i, b) && strings.Contains(describeVal(e, iff.Cond, 0), "contextRequired") {
+							if edgeDominates(d, i, b) && derivesFromImplements(e, iff.Cond, 0) {
 								ctxBranch = i
 							}
 						}
@@ -1404,19 +1418,21 @@ func checkC20(w *World, r *Report) {
 				if iff == nil || !edgeDominates(d, 0, b) {
 					continue
 				}
-				ds := describeVal(e, iff.Cond, 0)
-				if strings.Contains(ds, "contextRequired") {
+				if derivesFromImplements(e, iff.Cond, 0) {
 					g |= 1
 				}
-				if strings.Contains(ds, "len(args)") {
-					g |= 2
+				if bo, ok := iff.Cond.(*ssa.BinOp); ok {
+					if t, _, ok := e.linOf(bo.X); ok && t.Kind == 1 && t.K.Root == ssa.Value(callFn.Params[len(callFn.Params)-1]) {
+						g |= 2
+					}
 				}
 			}
 			if g == 3 {
-				if al.Comment == "minArgs" {
+				// which bound: the cell handed to the builders as minimum / maximum
+				switch boundRole(callFn, al, argsCtx) {
+				case 1:
 					incMin = true
-				}
-				if al.Comment == "maxArgs" {
+				case 2:
 					incMax = true
 				}
 			}
@@ -1606,4 +1622,82 @@ func checkC20(w *World, r *Report) {
 	}
 	r.floor("C20.bounds-decl", "registrations with explicit bounds", nb, 6)
 	r.Assumptions = append(r.Assumptions, "assignability of each argument to its parameter is left to reflect.Call's own panic under the barrier")
+}
+
+
+// derivesFromImplements: the boolean derives (through phis, negation, cells) from a call of reflect.Type.Implements:
+// "the first parameter is a context".
+func derivesFromImplements(e *Engine, v ssa.Value, depth int) bool {
+	if depth > 6 {
+		return false
+	}
+	switch x := v.(type) {
+	case *ssa.Call:
+		return x.Call.IsInvoke() && x.Call.Method.Name() == "Implements"
+	case *ssa.Phi:
+		for _, op := range x.Edges {
+			if derivesFromImplements(e, op, depth+1) {
+				return true
+			}
+		}
+		// `v := false; if COND { v = true }`: an incoming edge is control-dependent on the call
+		for _, pred := range x.Block().Preds {
+			for _, d := range x.Parent().Blocks {
+				iff := blockIf(d)
+				if iff == nil || d == x.Block() {
+					continue
+				}
+				if _, isPhi := iff.Cond.(*ssa.Phi); isPhi && iff.Cond == ssa.Value(x) {
+					continue
+				}
+				if (d == pred || edgeDominates(d, 0, pred) || edgeDominates(d, 1, pred)) && !d.Dominates(x.Block()) || d == pred {
+					if c, ok := iff.Cond.(*ssa.Call); ok && c.Call.IsInvoke() && c.Call.Method.Name() == "Implements" {
+						return true
+					}
+				}
+			}
+		}
+	case *ssa.UnOp:
+		if x.Op == token.NOT {
+			return derivesFromImplements(e, x.X, depth+1)
+		}
+		if cell := cellOf(x.X); cell != nil {
+			for _, st := range e.storesTo(cell) {
+				if derivesFromImplements(e, st.Val, depth+1) {
+					return true
+				}
+			}
+			// `v := false; if COND { v = true }`: the store of true is control-dependent on the call
+			for _, st := range e.storesTo(cell) {
+				for _, d := range st.Parent().Blocks {
+					if iff := blockIf(d); iff != nil && (edgeDominates(d, 0, st.Block()) || edgeDominates(d, 1, st.Block())) && derivesFromImplements(e, iff.Cond, depth+1) {
+						return true
+					}
+				}
+			}
+		}
+	case *ssa.BinOp:
+		return derivesFromImplements(e, x.X, depth+1) || derivesFromImplements(e, x.Y, depth+1)
+	}
+	return false
+}
+
+// boundRole: 1 if the cell is what the adapters pass as the builders' minimum, 2 for the maximum, 0 otherwise.
+func boundRole(callFn *ssa.Function, cell *ssa.Alloc, builder *ssa.Function) int {
+	for _, ad := range allAnon(callFn) {
+		for _, c := range staticCallsTo(ad, builder) {
+			// builder(ctx, min, max, args)
+			for i, a := range c.Call.Args {
+				if ld, ok := a.(*ssa.UnOp); ok && cellOf(ld.X) == cell {
+					if i == 1 {
+						return 1
+					}
+					if i == 2 {
+						return 2
+					}
+				}
+			}
+		}
+	}
+	return 0
 }
